@@ -30,9 +30,9 @@ ASSUMPTIONS = ['rescale > 0 (a scaling factor); the ordering / precision clauses
                'under the known-finding key one-sided-level-below-half',
                'tolerance 1e-9 relative plus a conditioning term 2e-15 x (1 + (mean/sd of control)^2)']
 EXHAUSTIVE = {'quick': False, 'thorough': False}
-MINIMA = {'quick': {'refits': 100, 'fits': 600, 'days_checked': 4000, 'summary_rows_checked': 3000, 'variants_checked': 600,
+MINIMA = {'quick': {'explicit_period_checks': 60, 'refits': 100, 'fits': 600, 'days_checked': 4000, 'summary_rows_checked': 3000, 'variants_checked': 600,
                     'tbrfit_checked': 500, 'tbrfit_after_reuse': 200, 'distinct_nontrivial': 500},
-          'thorough': {'refits': 1500, 'fits': 10000, 'days_checked': 60000, 'summary_rows_checked': 50000, 'variants_checked': 10000,
+          'thorough': {'explicit_period_checks': 1000, 'refits': 1500, 'fits': 10000, 'days_checked': 60000, 'summary_rows_checked': 50000, 'variants_checked': 10000,
                        'tbrfit_checked': 8000, 'tbrfit_after_reuse': 3000, 'distinct_nontrivial': 8000}}
 N = {'quick': 720, 'thorough': 12000}
 
@@ -144,6 +144,10 @@ def run_case(spec):
             'violations': [], 'sample': None}
   kappa = 1.0 + (ref.xbar / max(float(np.std(x_pre)), 1e-300)) ** 2
   rt = 1e-9 + 2e-15 * kappa
+  # when the treatment follows the control almost perfectly the residuals are differences of nearly equal numbers:
+  # their relative accuracy (and that of sigma and every scale) is about eps * |y| / sigma
+  rt_sigma = 200 * 2.2e-16 * float(np.abs(y_pre).max()) / ref.sigma
+  rts = max(rt * 10, rt_sigma)
   vol = float(np.abs(y_an).sum() + np.abs(y_pre).mean() * len(y_an))
   at_loc = rt * vol
 
@@ -160,7 +164,7 @@ def run_case(spec):
     if not np.allclose(loc, refm.loc[:n_days], rtol=rt, atol=at_loc):
       k = int(np.argmax(np.abs(loc - refm.loc[:n_days])))
       add('loc', 'posterior-loc', '%s: day %d location %.12g, closed form %.12g' % (label, k + 1, loc[k], refm.loc[k]))
-    if not np.allclose(sc, refm.scale[:n_days], rtol=max(rt, 1e-9) * 10, atol=0):
+    if not np.allclose(sc, refm.scale[:n_days], rtol=max(max(rt, 1e-9) * 10, rt_sigma), atol=0):
       k = int(np.argmax(np.abs(sc / refm.scale[:n_days] - 1)))
       add('scale', 'posterior-scale', '%s: day %d scale %.12g, Kerman eq.5 gives %.12g' % (label, k + 1, sc[k], refm.scale[k]))
 
@@ -171,11 +175,20 @@ def run_case(spec):
     d1 = model.causal_cumulative_distribution(periods=(1,))
     _, x_t, y_t = totals(exp, frame, 'response', (1,))
     check_posterior(d1, tbrref.Ref(x_pre, y_pre, x_t, y_t), 'periods=(test,)', len(x_t))
+  if not use_cool and exp['n_cool'] > 0:
+    # the caller may ask for other periods after fitting: test + cooldown on a model built with use_cooldown=False
+    d2 = util.call(model.causal_cumulative_distribution, periods=(1, 2))
+    _, x_tc, y_tc = totals(exp, frame, 'response', (1, 2))
+    counters['explicit_period_checks'] += 1
+    if not d2.ok:
+      add('periods', 'posterior-explicit-periods-raises:' + d2.exc_type, 'causal_cumulative_distribution(periods=(test, cooldown)) raised %s' % d2.describe())
+    else:
+      check_posterior(d2.value, tbrref.Ref(x_pre, y_pre, x_tc, y_tc), 'periods=(test, cooldown) on a use_cooldown=False model', len(x_tc))
   tpos = r.choice([r.randrange(0, len(x_an)), -1, 0])
   rs = r.choice([1.0, 0.25, 3.0, 1e-3])
   dt = model.causal_cumulative_distribution(time=tpos, rescale=rs)
   if not (util.close(float(dt.kwds['loc']), rs * ref.loc[tpos], rtol=rt, atol=rs * at_loc) and
-          util.close(float(dt.kwds['scale']), rs * ref.scale[tpos], rtol=rt * 10)):
+          util.close(float(dt.kwds['scale']), rs * ref.scale[tpos], rtol=rts)):
     add('time', 'posterior-time-index', 'time=%d, rescale=%g gives loc %.12g scale %.12g, closed form %.12g %.12g' % (
         tpos, rs, float(dt.kwds['loc']), float(dt.kwds['scale']), rs * ref.loc[tpos], rs * ref.scale[tpos]))
 
@@ -193,7 +206,7 @@ def run_case(spec):
     sv = np.atleast_1d(np.asarray(dv.kwds['scale'], dtype=float))
     l0 = np.atleast_1d(np.asarray(dist.kwds['loc'], dtype=float))
     s0 = np.atleast_1d(np.asarray(dist.kwds['scale'], dtype=float))
-    if lv.shape != l0.shape or not np.allclose(lv, l0, rtol=rt, atol=at_loc) or not np.allclose(sv, s0, rtol=rt * 10):
+    if lv.shape != l0.shape or not np.allclose(lv, l0, rtol=rt, atol=at_loc) or not np.allclose(sv, s0, rtol=rts):
       add('layout', 'layout-dependence:' + kind, 'layout variant %s changes the posterior (first loc %r vs %r, scale %r vs %r)' % (
           kind, lv[:1], l0[:1], sv[:1], s0[:1]))
 
@@ -235,17 +248,17 @@ def run_case(spec):
       bad = None
       if not util.close(est, want_est, rtol=rt, atol=atol):
         bad = ('estimate', est, want_est)
-      elif not util.close(sc, want_sc, rtol=rt * 10):
+      elif not util.close(sc, want_sc, rtol=rts):
         bad = ('scale', sc, want_sc)
-      elif not util.close(low, want_low, rtol=rt * 10, atol=atol):
+      elif not util.close(low, want_low, rtol=rts, atol=atol + rts * abs(want_sc * tq)):
         bad = ('lower', low, want_low)
-      elif not (up == want_up or util.close(up, want_up, rtol=rt * 10, atol=atol)):
+      elif not (up == want_up or util.close(up, want_up, rtol=rts, atol=atol + rts * abs(want_sc * tq))):
         bad = ('upper', up, want_up)
       elif not util.close(float(row['level']), level, rtol=1e-15) or not util.close(float(row['posterior_threshold']), thr, rtol=1e-15):
         bad = ('level/threshold echo', (float(row['level']), float(row['posterior_threshold'])), (level, thr))
       else:
         p_want = float(1.0 - stats.t.cdf((thr - want_est) / want_sc, ref.df))
-        p_tol = 1e-9 + abs(float(stats.t.pdf((thr - want_est) / want_sc, ref.df))) * (atol / want_sc + rt * 10 * abs(thr - want_est) / want_sc)
+        p_tol = 1e-9 + abs(float(stats.t.pdf((thr - want_est) / want_sc, ref.df))) * (atol / want_sc + rts * abs(thr - want_est) / want_sc)
         if not abs(float(row['probability']) - p_want) <= p_tol:
           bad = ('probability', float(row['probability']), p_want)
       if bad:
@@ -259,7 +272,7 @@ def run_case(spec):
         else:
           add('ordering', 'summary-ordering', '%s row %d: lower=%.12g estimate=%.12g upper=%.12g' % (label, k, low, est, up))
         break
-      if not util.close(prec, est - low, rtol=1e-9, atol=1e-9 * abs(want_sc) + 1e-12 * abs(est)):
+      if not util.close(prec, est - low, rtol=1e-9, atol=1e-9 * abs(want_sc) + 1e-12 * abs(est) + 4e-16 * (abs(est) + abs(low))):
         add('precision', 'summary-precision', '%s row %d: precision=%.12g, estimate-lower=%.12g' % (label, k, prec, est - low))
         break
 
@@ -287,11 +300,11 @@ def run_case(spec):
     t_est, t_hw = float(row['estimate']), float(row['estimate']) - float(row['lower'])
     if not util.close(est, t_est, rtol=rt * 10, atol=at_loc * 10):
       add('tbrfit-estimate', 'tbrfit-vs-tbr-estimate', 'tbrfit estimate %.12g, TBR last-day estimate %.12g' % (est, t_est))
-    elif not util.close(cihw, t_hw, rtol=max(rt * 100, 1e-7), atol=at_loc * 10):
+    elif not util.close(cihw, t_hw, rtol=max(rt * 100, 1e-7, rts), atol=at_loc * 10):
       add('tbrfit-halfwidth', 'tbrfit-vs-tbr-halfwidth', 'tbrfit half-width %.12g, TBR estimate-lower at level %.2f %.12g' % (cihw, sig, t_hw))
     r_est, r_hw, r_sigma, r_scale = tbrref.design_fit(x_pre, y_pre, float(np.mean(x_an)), float(np.mean(y_an)), len(x_an), sig)
-    if not (util.close(est, r_est, rtol=rt * 10, atol=at_loc * 10) and util.close(scale, r_scale, rtol=max(rt * 100, 1e-8))
-            and util.close(sigma, r_sigma, rtol=max(rt * 100, 1e-8))):
+    if not (util.close(est, r_est, rtol=rt * 10, atol=at_loc * 10) and util.close(scale, r_scale, rtol=max(rt * 100, 1e-8, rts))
+            and util.close(sigma, r_sigma, rtol=max(rt * 100, 1e-8, rts))):
       add('tbrfit-closed-form', 'tbrfit-vs-closed-form', 'tbrfit %r vs independent closed form %r' % ((est, cihw, sigma, scale), (r_est, r_hw, r_sigma, r_scale)))
   return {'nontrivial': True, 'fp': util.fp([desc, kind]), 'classes': ['n_pre=3' if exp['n_pre'] == 3 else 'n_pre>3', kind, exp['shape']],
           'counters': dict(counters), 'violations': violations[:6],
